@@ -1,7 +1,7 @@
 from common import COMMON_ASSUME
 
 _MUT = ["SafeStore", "CopyOnReuse", "GuardTypedNil", "BinMarshalerOpts", "ClonesCapLimited", "ParseErrorWins", "SharedSkipCounter",
-        "FreshStore", "RewindsSeekable", "FlagsReset"]
+        "FreshStore", "RewindsSeekable", "FlagsReset", "PipeClosedOnStop"]
 
 PROP = dict(
     module="CSVCodec",
